@@ -232,7 +232,7 @@ def corrupt_field(sym, fmt, position, attr, rule, maxlen, k, warm=()):
     warm_up(warm)
     top, holder = locate(fmt, position, k)
     kind = sym.choice("kind", KINDS)
-    v = make_value(sym, kind, "v", maxlen)
+    v = make_value(sym, kind, "v", maxlen, rule)
     d = in_domain(sym, rule, kind, v)
     if d is None or d is True:
         return
@@ -300,6 +300,24 @@ def special_corruption(sym, case, warm=()):
         sym.assume(sym.no_char(i, "\n"))
         sym.assume(sym.not_(sym.and_(len(i) >= 1, sym.chars_in(i, "alnum"))))
         objs["Client"].id = i
+        top = ci
+    elif case in ("bad-variant-id-aligned", "bad-child-id-aligned"):
+        # the id breaks its rule (letters and ASCII digits only) while UID and dictionary key stay aligned with it
+        ci, objs = base_composeinfo(0)
+        # (a pool rather than a free string: the id becomes a JSON object key if the writer lets it through)
+        i = sym.choice("id", ["Server\u0663", "HA\uff17", "\u0968", "R\u00e9sum\u00e9", "a b", "x_y", "a.b", "\u00b2", "1\u00bd", " ", "Client "])
+        v = Variant(ci)
+        v.id = i
+        v.name = "x"
+        v.type = "variant"
+        v.arches = set(["x86_64"])
+        if case == "bad-variant-id-aligned":
+            v.uid = i
+            ci.variants.variants[i] = v
+        else:
+            v.uid = "Server-" + i
+            v.parent = objs["Server"]
+            objs["Server"].variants[i] = v
         top = ci
     elif case == "additional-variants-on-non-unified":
         im, imgs = base_images(0)
@@ -439,7 +457,7 @@ def jobs(tier, seed):
     for uid in ("Server", "Server-HA", "Client"):
         add("treeinfo", "v:" + uid, TREE_VARIANT_FIELDS, ks)
     for case in ("child-arch-outside-parent", "child-arch-outside-parent-first-child", "misaligned-uid", "misaligned-top-uid", "empty-arches",
-                 "bad-variant-id", "additional-variants-on-non-unified", "empty-checksums", "tree-absolute-checksum-path", "tree-unreferenced-platform", "tree-unreferenced-own-arch",
+                 "bad-variant-id", "bad-variant-id-aligned", "bad-child-id-aligned", "additional-variants-on-non-unified", "empty-checksums", "tree-absolute-checksum-path", "tree-unreferenced-platform", "tree-unreferenced-own-arch",
                  "tree-absolute-image-path", "tree-absolute-stage2", "tree-misaligned-child-uid", "tree-dashed-variant-id"):
         for w in ([], ["images"], ["treeinfo"]) if (big or case.startswith("tree") or "arch" in case or "uid" in case) else ([],):
             out.append({"harness": "special_corruption", "params": {"case": case, "warm": w}})
